@@ -18,6 +18,16 @@ THEOREMS = [
     "RedunModel.C06.expr_started_at_most_once",
     "RedunModel.SchedCore.reachable_cse",
     "RedunModel.SchedCore.reachable_inv",
+    "RedunModel.C06.settle_once",
+    "RedunModel.C06.one_token",
+    "RedunModel.C06.promise_all_exact",
+    "RedunModel.C06.twin_same_outcome",
+    "RedunModel.C06.twin_waits",
+    "RedunModel.C06.twin_settles_with_rep",
+    "RedunModel.C06.cse_entry_witness",
+    "RedunModel.C06.late_duplicate_same_branch",
+    "RedunModel.SchedCore.reachable_tok",
+    "RedunModel.SchedCore.reachable_cseW",
 ]
 TRUSTED = base.TRUSTED + [
     "the same-execution backend lookup (check_cache CSE branch) is modelled as a table of (eval hash, context, is-error) entries "
@@ -37,8 +47,19 @@ LEVEL_TEXT = ("Lean 4 proof (all programs, all schedules) that for every cache k
               "requests and job finalizations (a finalized job evaluates nothing) an equal expression under the same parent is handed the "
               "earlier evaluation and at most one evaluation is started per (parent, expression hash) - Model/ExprMemo, tied to the "
               "scheduler by replaying the observed request history (harness-side wrapper of _evaluate_apply/_finalize_job, Job creations "
-              "counted) and by the oracle 'one Job per (parent, expression hash)'. PARTIAL: 'a duplicate receives the same value' is "
-              "covered by the reference-value oracle and the correspondence, not by a theorem (the model carries no values).")
+              "counted) and by the oracle 'one Job per (parent, expression hash)'. Second clause ('every duplicate, whether its twin is still running or already finished, receives the same "
+              "result or error'), proved as far as the value-free model expresses it (Lemmas/SchedTwin.lean, all programs, real and dry "
+              "runs, all schedules): settle_once (a settled promise keeps its branch; from the token invariant reachable_tok / one_token: "
+              "at most one queued event, waiting-list entry or in-flight flag per job, none once settled; promise_all_exact: waiting = "
+              "number of pending children while the evaluation has not failed); twin_same_outcome (a duplicate collapsed onto a running "
+              "twin, once settled, is settled on the same branch as its representative; twin_waits: until then it is pending without "
+              "token, belongs to exactly one non-collapsed representative and never has children); twin_settles_with_rep (the step that "
+              "rejects the representative rejects every twin in-line, the step that resolves it queues done(t, final) for every twin); "
+              "cse_entry_witness and late_duplicate_same_branch (every entry of the same-execution table, hence every CSE hit of a "
+              "duplicate arriving after its twin finished, is the outcome of a provenance-recording job with that eval hash and context, "
+              "settled on the recorded branch). REMAINING PARTIAL: that the replayed VALUE itself is equal (not only the branch resolved / "
+              "rejected) is outside the model (it carries no values) and stays covered by the reference-value oracle and the "
+              "correspondence.")
 LEVEL_NOTE = ("mirrors /repo after fixes fa14a32 (own-registration pop, setdefault) and d273f7b (only provenance-recording jobs register); "
               "context-free backend lookups matching context-bearing entries (C05 known finding) make the model serve more hits, never more submissions")
 TECHNIQUE = base.TECHNIQUE
